@@ -170,50 +170,59 @@ structure FCol where
   blank : Option Int      -- FITS `BLANK` keyword
   deriving Repr, DecidableEq
 
+/-- one column of `data_to_astropy_table`: `values = data[cid]; if mask is not None: values = values[mask]` -/
+def tableCol (d : Dataset) (sel : Option (List Bool)) (c : Column) : FCol :=
+  match sel with
+  | none => ⟨c.name, c.kind, d.shape, c.cells, none⟩
+  | some m =>
+    let v := selectRows m c.cells
+    ⟨c.name, c.kind, [v.length], v, none⟩
+
 /-- `data_to_astropy_table`. -/
 def toTable (d : Dataset) (sel : Option (List Bool)) (comps : Option (List Nat)) : List FCol :=
-  (plan d comps).map fun c =>
-    match sel with
-    | none => ⟨c.name, c.kind, d.shape, c.cells, none⟩
-    | some m =>
-      let v := selectRows m c.cells
-      ⟨c.name, c.kind, [v.length], v, none⟩
+  (plan d comps).map (tableCol d sel)
 
 def encodeCell : Cell → Cell
   | .str s => .str (asciiReplace s)
   | c => c
 
-/-- `hdf5_writer` (with the F2 repair: unsigned integers are blanked like signed ones). -/
+/-- one dataset of `hdf5_writer` (with the F2 repair: unsigned integers are blanked like signed ones). -/
+def hdf5Col (d : Dataset) (sel : Option (List Bool)) (c : Column) : FCol :=
+  -- categorical + dtype U  ⇒  np.char.encode(values, 'ascii', 'replace')
+  let cells := if c.kind = .str then c.cells.map encodeCell else c.cells
+  match sel with
+  | none => ⟨c.name, c.kind, d.shape, cells, none⟩
+  | some m =>
+    if d.shape.length = 1 then
+      let v := selectRows m cells
+      ⟨c.name, c.kind, [v.length], v, none⟩
+    else
+      match c.kind with
+      | .float => ⟨c.name, c.kind, d.shape, fillMask .nan m cells, none⟩
+      | .int _ | .uint _ => ⟨c.name, c.kind, d.shape, fillMask (.num 0) m cells, none⟩
+      | .str => ⟨c.name, c.kind, d.shape, fillMask (.str []) m cells, none⟩
+
+/-- `hdf5_writer`. -/
 def hdf5Write (d : Dataset) (sel : Option (List Bool)) (comps : Option (List Nat)) : List FCol :=
-  (plan d comps).map fun c =>
-    -- categorical + dtype U  ⇒  np.char.encode(values, 'ascii', 'replace')
-    let cells := if c.kind = .str then c.cells.map encodeCell else c.cells
-    match sel with
-    | none => ⟨c.name, c.kind, d.shape, cells, none⟩
-    | some m =>
-      if d.shape.length = 1 then
-        let v := selectRows m cells
-        ⟨c.name, c.kind, [v.length], v, none⟩
-      else
-        match c.kind with
-        | .float => ⟨c.name, c.kind, d.shape, fillMask .nan m cells, none⟩
-        | .int _ | .uint _ => ⟨c.name, c.kind, d.shape, fillMask (.num 0) m cells, none⟩
-        | .str => ⟨c.name, c.kind, d.shape, fillMask (.str []) m cells, none⟩
+  (plan d comps).map (hdf5Col d sel)
 
 /-- `np.iinfo(dtype).min` for a signed integer of `bits` bits. -/
 def intMin (bits : Nat) : Int := -((2 : Int) ^ (bits - 1))
 
-/-- `fits_writer` (with the F3 repair: `blank` is reset for every component; kinds without a spare
-value are promoted to float and blanked with NaN). -/
+/-- one HDU of `fits_writer` (with the F3 repair: `blank` is reset for every component; kinds
+without a spare value are promoted to float and blanked with NaN). -/
+def fitsImageCol (d : Dataset) (sel : Option (List Bool)) (c : Column) : FCol :=
+  match sel with
+  | none => ⟨c.name, c.kind, d.shape, c.cells, none⟩
+  | some m =>
+    match c.kind with
+    | .int b => ⟨c.name, c.kind, d.shape, fillMask (.num (intMin b)) m c.cells, some (intMin b)⟩
+    | .float => ⟨c.name, .float, d.shape, fillMask .nan m c.cells, none⟩
+    | _ => ⟨c.name, .float, d.shape, fillMask .nan m (c.cells.map toF64), none⟩
+
+/-- `fits_writer`: `if data.get_kind(cid) != 'numerical': continue`. -/
 def fitsImageWrite (d : Dataset) (sel : Option (List Bool)) (comps : Option (List Nat)) : List FCol :=
-  ((plan d comps).filter fun c => c.kind.numerical).map fun c =>
-    match sel with
-    | none => ⟨c.name, c.kind, d.shape, c.cells, none⟩
-    | some m =>
-      match c.kind with
-      | .int b => ⟨c.name, c.kind, d.shape, fillMask (.num (intMin b)) m c.cells, some (intMin b)⟩
-      | .float => ⟨c.name, .float, d.shape, fillMask .nan m c.cells, none⟩
-      | _ => ⟨c.name, .float, d.shape, fillMask .nan m (c.cells.map toF64), none⟩
+  ((plan d comps).filter fun c => c.kind.numerical).map (fitsImageCol d sel)
 
 def exportFile (fmt : Format) (d : Dataset) (sel : Option (List Bool)) (comps : Option (List Nat)) :
     List FCol :=
@@ -239,12 +248,25 @@ def nameRepr (fmt : Format) (n : Str) : Str := if fmt = .fitsImage then upper n 
 /-- **The channel contract**: what reading back a written column yields.  Names through
 `nameRepr`; values unchanged; an integer image with a `BLANK` keyword comes back as floating point
 with NaN at the blank pixels (FITS standard, applied by astropy). -/
-def idealRead (fmt : Format) (c : FCol) : RCol :=
+def valueRepr (c : FCol) : List Cell :=
   match c.blank with
-  | some b =>
-    ⟨nameRepr fmt c.name, .float, c.shape,
-      c.cells.map fun x => some (if x = .num (b : Int) then .nan else toF64 x)⟩
-  | none => ⟨nameRepr fmt c.name, c.kind, c.shape, c.cells.map some⟩
+  | some b => c.cells.map fun x => if x = .num (b : Int) then .nan else toF64 x
+  | none => c.cells
+
+def kindRepr (c : FCol) : Kind :=
+  match c.blank with
+  | some _ => .float
+  | none => c.kind
+
+def idealRead (fmt : Format) (c : FCol) : RCol :=
+  ⟨nameRepr fmt c.name, kindRepr c, c.shape, (valueRepr c).map some⟩
+
+/-- The contract as a relation between a written and a read column: representable name, same
+shape, the represented values with nothing missing, and text stays text / numbers stay numbers
+(the exact numeric dtype, and the type of a column without rows, are the codec's business). -/
+def faithful (fmt : Format) (c : FCol) (r : RCol) : Bool :=
+  r.name == nameRepr fmt c.name && r.shape == c.shape && r.cells == (valueRepr c).map some &&
+  (r.cells.isEmpty || ((r.kind == .str) == (kindRepr c == .str)))
 
 /-- ASCII readers (astropy.io.ascii): an empty field is a missing value, and the column type is
 inferred from the remaining fields: all integer literals → int, all numbers → float, else text. -/
@@ -322,12 +344,13 @@ def maskedFill (kind : Kind) : Option Cell → Cell
     | .uint _ => .num 0      -- F5 repair: -1 cannot be stored in an unsigned column
     | .str => .str [110, 97, 110]
 
+def filled (c : RCol) : List Cell := c.cells.map (maskedFill c.kind)
+
 /-- `astropy_tabular_data`: one `Data`, columns in table order. -/
 def tabularLoad (cols : List RCol) : List LData :=
   match cols with
   | [] => []
-  | c0 :: _ =>
-    [⟨c0.shape, cols.map fun c => autotyped c.name c.kind (c.cells.map (maskedFill c.kind))⟩]
+  | c0 :: _ => [⟨c0.shape, cols.map fun c => autotyped c.name c.kind (filled c)⟩]
 
 def unmasked (c : RCol) : List Cell := c.cells.map fun x => x.getD .nan
 
@@ -404,15 +427,17 @@ def rowMode (fmt : Format) (d : Dataset) : Bool := d.shape.length = 1 && fmt ≠
 /-- The components the property demands, in order: main components in dataset order, then derived
 components, restricted to the requested ones; text "up to the format's encoding"; for a subset the
 selected rows (tables) or the masked pixels with everything else blank (images). -/
+def expCol (fmt : Format) (d : Dataset) (sel : Option (List Bool)) (c : Column) : ExpComp :=
+  let cells := if fmt = .hdf5 then c.cells.map encodeCell else c.cells
+  match sel with
+  | none => ⟨nameRepr fmt c.name, c.kind = .str, d.shape, cells⟩
+  | some m =>
+    if rowMode fmt d then ⟨nameRepr fmt c.name, c.kind = .str, [countTrue m], selectRows m cells⟩
+    else ⟨nameRepr fmt c.name, c.kind = .str, d.shape, fillMask (fillOf fmt c.kind) m cells⟩
+
 def expected (fmt : Format) (d : Dataset) (sel : Option (List Bool)) (comps : Option (List Nat)) :
     List ExpComp :=
-  ((plan d comps).filter (carried fmt)).map fun c =>
-    let cells := if fmt = .hdf5 then c.cells.map encodeCell else c.cells
-    match sel with
-    | none => ⟨nameRepr fmt c.name, c.kind = .str, d.shape, cells⟩
-    | some m =>
-      if rowMode fmt d then ⟨nameRepr fmt c.name, c.kind = .str, [countTrue m], selectRows m cells⟩
-      else ⟨nameRepr fmt c.name, c.kind = .str, d.shape, fillMask (fillOf fmt c.kind) m cells⟩
+  ((plan d comps).filter (carried fmt)).map (expCol fmt d sel)
 
 def flatten (out : List LData) : List (List Nat × LComp) :=
   out.flatMap fun ld => ld.comps.map fun c => (ld.shape, c)
